@@ -1403,6 +1403,9 @@ int reb_simulation_add_variation_1st_order(struct reb_simulation* const r, int t
     r->var_config[r->N_var_config-1].index = index;
     r->var_config[r->N_var_config-1].lrescale = 0;
     r->var_config[r->N_var_config-1].testparticle = testparticle;
+    // Not used for first order variations. Set them anyway: they get saved and compared.
+    r->var_config[r->N_var_config-1].index_1st_order_a = 0;
+    r->var_config[r->N_var_config-1].index_1st_order_b = 0;
     struct reb_particle p0 = {0};
     if (testparticle>=0){
         reb_simulation_add(r,p0);
